@@ -169,6 +169,8 @@ def main():
                 recs.append({"id": rid + "#names", "k": "pp", "a": pre2, "out": out2, "text": a2.to_y0()[:300], "raw": has_raw(x)})
             except NotApplicable:
                 pass
+            except Exception:  # noqa: BLE001  (the argument could not be built / serialised: its own record reports that)
+                stats["arg_failed"] += 1
             finally:
                 ser_mod.set_naming("V")
         else:
